@@ -361,7 +361,7 @@ func c06Run(r *mon.Run) {
 	r.Gate("hg-k-below-mode", "hg-k-above-mode", "hg-k-at-mode", "hg-Draws<N/2", "hg-Draws>N/2", "hg-Draws=N/2", "hg-lower-bound>0",
 		"hg-Draws=N", "hg-Draws=0", "hg-K-in-{0,N}", "hg-one-point-support", "hg-support>=3-points", "hg-N>80",
 		"binom-k=N-1", "binom-P=0", "binom-P=1", "binom-P-within-1e-12-of-0", "binom-P-within-1e-12-of-1",
-		"binom-N=0", "binom-N=1", "binom-N-21..60", "binom-N>60", "binom-N=1000", "binom-proper", "binom-k-below-mode", "binom-k-above-mode",
+		"binom-threshold-size", "hyperg-threshold-size", "binom-N=0", "binom-N=1", "binom-N-21..60", "binom-N>60", "binom-N=1000", "binom-proper", "binom-k-below-mode", "binom-k-above-mode",
 		"k-half-integer", "k-other-fraction", "k-in-(-1,0)", "k-negative-fraction", "k-just-below-integer",
 		"k-below-support", "k-above-support", "k-at-top", "k-at-bottom", "k-far-out", "k-beyond-int64")
 	if err := ref.C06SelfTest(); err != nil {
@@ -403,6 +403,44 @@ func c06Run(r *mon.Run) {
 	r.Exhaustive(fmt.Sprintf("all %d BinomialDist with N<=%d and P in the %d-value grid, on the full half-integer grid around 0..N", len(bs), c06ExactMax, len(ps)))
 	r.Parallel("binom-grid", len(bs), func(w *mon.W, i int) {
 		c06Binom(w, bs[i].n, bs[i].p, 2)
+	})
+
+	// ---- sizes around the thresholds at which plausible implementations
+	// switch algorithms or overflow (int64 products from n = 62, table sizes
+	// 64/128/256/512, the float64 factorial limit 170): every such N, central P
+	var thr []int
+	for n := 61; n <= 130; n++ {
+		thr = append(thr, n)
+	}
+	thr = append(thr, 169, 170, 171, 172, 255, 256, 257, 511, 512, 513)
+	type tb struct {
+		n int
+		p float64
+	}
+	var tbs []tb
+	for _, n := range thr {
+		for _, p := range []float64{0.5, 0.25, 0.9, 1.0 / 3} {
+			tbs = append(tbs, tb{n, p})
+		}
+	}
+	r.Parallel("binom-threshold-sizes", len(tbs), func(w *mon.W, i int) {
+		w.Hit("binom-threshold-size")
+		c06Binom(w, tbs[i].n, tbs[i].p, 2)
+	})
+	type th struct{ n, k, d int }
+	var ths []th
+	for _, n := range thr {
+		for _, k := range []int{n / 2, n/2 + 1, n / 3, 62, 64, 66} {
+			for _, d := range []int{n / 2, n/2 - 1, (2 * n) / 3, 33} {
+				if k <= n && d <= n && k >= 0 && d >= 0 {
+					ths = append(ths, th{n, k, d})
+				}
+			}
+		}
+	}
+	r.Parallel("hyperg-threshold-sizes", len(ths), func(w *mon.W, i int) {
+		w.Hit("hyperg-threshold-size")
+		c06Hyperg(w, ths[i].n, ths[i].k, ths[i].d, 2)
 	})
 
 	// ---- random binomial, N up to 1000
